@@ -161,9 +161,19 @@ func specshareComponent(g *G, n int, opts map[string]string) *Out {
 		todo = w.Cases
 	} else {
 		for len(todo) < n {
+			// every other case: actions and guards that delete, overwrite and replace permanent bindings, each walker
+			// with its own values for them (what one machine is given back must never be another machine's)
+			saved := g.mode
+			if len(todo)%2 == 1 {
+				g.mode = "c18"
+			}
 			c := &shCase{Spec: g.specNoLoop(opts)}
 			for i := 0; i < goroutines; i++ {
 				w := &shWalk{State: g.astate(c.Spec), Limit: 1 + g.intn(10)}
+				if w.State.Bs != nil && g.mode == "c18" {
+					w.State.Bs["cfg!"] = fmt.Sprintf("walker-%d", i)
+					w.State.Bs["ver!"] = float64(i)
+				}
 				node := w.State.Node
 				for k := g.intn(4); k > 0; k-- {
 					w.Msgs = append(w.Msgs, g.messageFor(c.Spec, node))
@@ -172,6 +182,7 @@ func specshareComponent(g *G, n int, opts map[string]string) *Out {
 				}
 				c.Walks = append(c.Walks, w)
 			}
+			g.mode = saved
 			todo = append(todo, c)
 		}
 	}
